@@ -297,6 +297,8 @@ impl GroupCommitQueue {
         let start = Instant::now();
 
         while !pending.is_completed() {
+            #[cfg(kahflane_turdb_verif)]
+            crate::verif::point("gc.check", &[pending.batch_id as i64]);
             let mut state = self.state.lock();
 
             if pending.is_completed() {
